@@ -1,6 +1,6 @@
 """DELEG, IOERR (C07, C13, C10): agreement of the content views per source type and forwarding by wrappers."""
 from ..core import RuleResult
-from ..ir import access_paths, walk
+from ..ir import access_paths, walk, strip
 from .. import anchors
 from .eqhash import cone
 
@@ -58,7 +58,7 @@ def rule_deleg(ctx):
     r = RuleResult('DELEG', 'per source type the byte views (buffer, size, to_writer) are computed from the same basis and so are the '
                             'text views (source, rope); wrappers (Box, Cached, single-child Concat, empty Replace.map) forward each view '
                             'to the same view of the wrapped source with their own arguments')
-    r.floor = 40
+    r.floor = 30
     tr, impls = source_impls(f)
     if len(impls) < 9:
         raise anchors.AnchorMissing('expected >= 9 Source impls, found %d' % len(impls))
@@ -175,7 +175,7 @@ def rule_ioerr(ctx):
     f = ctx.facts()
     r = RuleResult('IOERR', 'to_writer never drops, unwraps or ignores a writer error: every io::Result produced inside a to_writer '
                             'body is the return value or is propagated with `?`')
-    r.floor = 10
+    r.floor = 6
     bodies = [b for b in f.body_list if b.promoted is None and b.name == 'to_writer' and b.d['kind'] != 'Closure']
     for b in bodies:
         for m in group_members(f, b):
@@ -213,5 +213,53 @@ def rule_ioerr(ctx):
                     r.violation('%s:%s' % (m.path, c['name']), t['s'], m.path,
                                 'the io::Result of `%s` is %s instead of being returned or propagated with `?`: a failing writer is '
                                 'reported as success (and later writes continue)' % (c['path'], sorted(set(consumers)) or 'dropped'))
+    # IOERR-SINK: bytes must go to the caller's writer itself; a local buffering adapter swallows the error of its
+    # final flush (Drop discards it) unless an explicit, propagated flush post-dominates every write
+    tr_source = anchors.trait_path(f, 'Source')
+    WRITE_NAMES = {'to_writer', 'write_all', 'write', 'write_fmt', 'write_vectored', 'write_all_vectored'}
+    for b in bodies:
+        for m in group_members(f, b):
+            if m is not b:
+                continue
+            writes = []
+            for pt, t in m.calls():
+                c = t.get('callee')
+                if not c or c['name'] not in WRITE_NAMES or len(t['args']) < 1:
+                    continue
+                if c.get('trait') == tr_source or c.get('impl_trait') == tr_source:
+                    widx = 1
+                elif (c.get('trait') or '').endswith('io::Write') or (c.get('impl_trait') or '').endswith('io::Write'):
+                    widx = 0
+                else:
+                    # foreign serializer taking a writer: the argument whose type is a writer
+                    cand = [i for i, ty in enumerate(t['arg_tys']) if 'Write' in ty or ty in ('W', '&mut W')]
+                    if len(cand) != 1:
+                        continue
+                    widx = cand[0]
+                if widx >= len(t['args']):
+                    continue
+                e = m.expr_of_operand(t['args'][widx])
+                roots = strip(e, through_calls={'deref', 'deref_mut', 'by_ref', 'borrow_mut', 'as_mut'})
+                own = bool(roots) and all(x[0] == 'arg' and x[3] == m.key for x in roots)
+                writes.append((pt, t, own, roots))
+            for pt, t, own, roots in writes:
+                ok = own
+                why = ''
+                if not own:
+                    # adapter: need a propagated flush on the same root post-dominating this write
+                    for pt2, t2 in m.calls():
+                        c2 = t2.get('callee')
+                        if c2 and c2['name'] == 'flush' and t2['args']:
+                            r2 = strip(m.expr_of_operand(t2['args'][0]), through_calls={'deref', 'deref_mut', 'by_ref', 'borrow_mut', 'as_mut'})
+                            if set(r2) & set(roots) and m.postdominates(pt2, pt):
+                                ok = True
+                    why = 'writes go to a local adapter (%s) and no propagated flush() post-dominates them' % (
+                        roots[0][1] if roots and roots[0][0] == 'call' else 'not the writer parameter')
+                r.site('%s: `%s` writes to %s' % (m.path, t['callee']['name'], 'the caller\'s writer' if own else 'a local adapter'),
+                       t['s'], 'ok' if ok else 'violation')
+                if not ok:
+                    r.violation('%s:sink' % m.path, t['s'], m.path,
+                                'to_writer %s: the adapter flushes in Drop, which discards the writer\'s error — a failing writer is '
+                                'reported as success' % why)
     r.check_floor()
     return r
